@@ -40,9 +40,12 @@ Inductive case :=
 (* Needle.ParsePath(s): id, cookie *)
 | KPath (s : list N) (impl : option (N * N))
 (* SuperBlock.Bytes(), BlockSize(), and ReadSuperBlock of the file holding those bytes *)
-| KSb (s : super_block) (impl_bytes : list N) (impl_block_size : N) (impl_read : option super_block)
-(* ReadSuperBlock of an arbitrary file *)
-| KSbRead (file : list N) (impl_read : option super_block)
+(* [pbres]: protobuf oracle value for the extra bytes of s: Marshal(Unmarshal(extra)), None on error *)
+| KSb (s : super_block) (impl_bytes : list N) (impl_block_size : N) (pbres : option (list N))
+      (impl_read : option super_block)
+(* ReadSuperBlock of an arbitrary file; [cand] = the bytes of the file from offset 8 that the
+   header's extra size designates (clipped at the end of the file), [pbres] the oracle value for them *)
+| KSbRead (file : list N) (cand : list N) (pbres : option (list N)) (impl_read : option super_block)
 (* needle_map.ToBytes(key, offset, size) and idx.IdxFileEntry of it *)
 | KIdx (key off : N) (size : Z) (impl_bytes : list N) (back : N * N * Z)
 (* types.ToOffset(actual) and ToActualOffset of it *)
@@ -108,9 +111,12 @@ Definition check (c : case) : outcome :=
   | KRpStr s impl istr =>
       {| o_corr := opt_eqb rp_eqb (rp_from_string s) impl
                    && bytes_eqb (match impl with Some r => rp_string r | None => [] end) istr;
-         (* an accepted string is the encoding of the placement returned *)
-         o_prop := match impl with Some r => rp_valid r && bytes_eqb istr s | None => true end;
-         o_trig := if len s =? 3 then None else Some 1;
+         (* an accepted string is the encoding of the placement returned, or "" for the default 000 *)
+         o_prop := match impl with
+                   | Some r => rp_valid r && (bytes_eqb istr s || ((len s =? 0) && rp_eqb r (0, 0, 0)))
+                   | None => true
+                   end;
+         o_trig := None;
          o_nontrivial := is_some impl |}
   | KRpByte b impl ib =>
       {| o_corr := opt_eqb rp_eqb (rp_from_byte b) impl
@@ -199,16 +205,27 @@ Definition check (c : case) : outcome :=
                    end;
          o_trig := None;
          o_nontrivial := is_some impl |}
-  | KSb s ibytes ibs iread =>
+  | KSb s ibytes ibs pbres iread =>
+      let pb := fun b => if bytes_eqb b (sb_extra s) then pbres else None in
       {| o_corr := bytes_eqb (sb_bytes s) ibytes && (sb_block_size s =? ibs)
-                   && opt_eqb sb_eqb (sb_read ibytes) iread;
+                   && opt_eqb sb_eqb (sb_read pb ibytes) iread;
          o_prop := opt_eqb sb_eqb iread (Some s);
-         o_trig := match sb_extra s with [] => None | _ => Some 0 end;
+         o_trig := None;
          o_nontrivial := true |}
-  | KSbRead file iread =>
-      {| o_corr := opt_eqb sb_eqb (sb_read file) iread;
-         (* an accepted header is the encoding of the super block returned *)
-         o_prop := match iread with Some s => bytes_eqb (takeN 8 file) (sb_bytes s) | None => true end;
+  | KSbRead file cand pbres iread =>
+      let pb := fun b => if bytes_eqb b cand then pbres else None in
+      {| o_corr := opt_eqb sb_eqb (sb_read pb file) iread;
+         (* an accepted header is the encoding of the super block returned; the extra is what
+            protobuf decodes from exactly the designated bytes of the file *)
+         o_prop := match iread with
+                   | Some s =>
+                       let size := be_decode (takeN 2 (dropN 6 file)) in
+                       bytes_eqb (takeN 6 file) (takeN 6 (sb_bytes s))
+                       && (if size =? 0 then len (sb_extra s) =? 0
+                           else (len cand =? size) && bytes_eqb cand (takeN size (dropN 8 file))
+                                && opt_eqb bytes_eqb pbres (Some (sb_extra s)))
+                   | None => true
+                   end;
          o_trig := None;
          o_nontrivial := is_some iread |}
   | KIdx key off size ibytes back =>
